@@ -236,7 +236,7 @@ def eq_spec(ctx, name, symbols, code, spec, domain=None, kind="a", cos_nonneg=()
         for i, (g, w_) in enumerate(zip(got, want)):
             cn = cell_names[i] if cell_names else str(i)
             v = field.check_zero(g - w_, domain=dom, seed=ctx.seed + i, cos_nonneg=cos_nonneg,
-                                 extra_relations=extra_relations, points=pts)
+                                 extra_relations=extra_relations, points=pts, sides=(g, w_))
             if conds and v.status != "proved":
                 v.detail = (v.detail + " | on the path " + "; ".join(paths.show_conds(conds)))[:900]
             ctx.from_verdict("%s[%s]%s" % (name, cn, tag), kind, v, (lambda p, _i=i: native_fn(p, _i)))
@@ -659,7 +659,7 @@ def taylor_spec(ctx, name, symbols, eps, code, spec_coeffs, order, domain=None, 
             cn = cell_names[i] if cell_names else str(i)
             for k in orders:
                 v = field.check_zero(coeffs[i][k] - want[i][k], domain=dom, seed=ctx.seed + 31 * i + k,
-                                     cos_nonneg=cos_nonneg, extra_relations=extra_relations, points=pts)
+                                     cos_nonneg=cos_nonneg, extra_relations=extra_relations, points=pts, sides=(coeffs[i][k], want[i][k]))
                 if conds and v.status != "proved":
                     v.detail = (v.detail + " | on the path " + "; ".join(paths.show_conds(conds)))[:900]
                 if conds:
